@@ -14,24 +14,26 @@ namespace KV.Writer
 structure InvPlace (s : State) : Prop where
   placed : ∀ c C, s.calls c = some C → ∀ i b, C.place i = some b →
     ∃ B, s.batches b = some B ∧ (∃ m ∈ B.msgs, m.msg = (c, i)) ∧ C.assign[i]? = some B.tp
-  batchTP : ∀ b B, s.batches b = some B → ∀ m ∈ B.msgs, ∃ C, s.calls m.msg.1 = some C ∧ C.assign[m.msg.2]? = some B.tp
+  batchTP : ∀ b B, s.batches b = some B → ∀ m ∈ B.msgs,
+    ∃ C, s.calls m.msg.1 = some C ∧ C.assign[m.msg.2]? = some B.tp ∧ C.place m.msg.2 = some b
   logTP : ∀ tp, ∀ e ∈ s.log tp, ∃ C, s.calls e.msg.1 = some C ∧ C.assign[e.msg.2]? = some tp
 
 theorem invPlace_init : InvPlace State.init := by
   constructor <;> simp [State.init]
 
 theorem InvPlace.of_frame {s s' : State} (h : InvPlace s)
-    (hcalls : ∀ c C, s.calls c = some C → ∃ C', s'.calls c = some C' ∧ ∀ (j : Nat) (tp : TP), C.assign[j]? = some tp → C'.assign[j]? = some tp)
+    (hcalls : ∀ c C, s.calls c = some C → ∃ C', s'.calls c = some C' ∧ C'.place = C.place ∧ ∀ (j : Nat) (tp : TP), C.assign[j]? = some tp → C'.assign[j]? = some tp)
     (hcalls' : ∀ c C', s'.calls c = some C' → (∀ i, C'.place i = none) ∨ ∃ C, s.calls c = some C ∧ C'.place = C.place)
     (hbat : ∀ b B', s'.batches b = some B' → B'.msgs = [] ∨ ∃ B, s.batches b = some B ∧ B'.msgs = B.msgs ∧ B'.tp = B.tp)
     (hbat' : ∀ b B, s.batches b = some B → ∃ B', s'.batches b = some B' ∧ B'.msgs = B.msgs ∧ B'.tp = B.tp)
     (hlog : ∀ tp e, e ∈ s'.log tp → e ∈ s.log tp ∨ ∃ b B, s.batches b = some B ∧ B.tp = tp ∧ ∃ m ∈ B.msgs, e.msg = m.msg) :
     InvPlace s' := by
-  have hbt : ∀ b B, s.batches b = some B → ∀ m ∈ B.msgs, ∃ C', s'.calls m.msg.1 = some C' ∧ C'.assign[m.msg.2]? = some B.tp := by
+  have hbt : ∀ b B, s.batches b = some B → ∀ m ∈ B.msgs,
+      ∃ C', s'.calls m.msg.1 = some C' ∧ C'.assign[m.msg.2]? = some B.tp ∧ C'.place m.msg.2 = some b := by
     intro b B hB m hm
-    obtain ⟨C, hC, ha⟩ := h.batchTP b B hB m hm
-    obtain ⟨C', hC', hmono⟩ := hcalls _ _ hC
-    exact ⟨C', hC', hmono _ _ ha⟩
+    obtain ⟨C, hC, ha, hp⟩ := h.batchTP b B hB m hm
+    obtain ⟨C', hC', hpl, hmono⟩ := hcalls _ _ hC
+    exact ⟨C', hC', hmono _ _ ha, by rw [hpl]; exact hp⟩
   constructor
   · intro c C' hC' i b hp
     rcases hcalls' c C' hC' with hnone | ⟨C, hC, hpl⟩
@@ -39,7 +41,7 @@ theorem InvPlace.of_frame {s s' : State} (h : InvPlace s)
     · rw [hpl] at hp
       obtain ⟨B, hB, hm, ha⟩ := h.placed c C hC i b hp
       obtain ⟨B', hB', e1, e2⟩ := hbat' b B hB
-      obtain ⟨C'', hC'', hmono⟩ := hcalls c C hC
+      obtain ⟨C'', hC'', -, hmono⟩ := hcalls c C hC
       rw [hC'] at hC''; cases hC''
       exact ⟨B', hB', e1 ▸ hm, e2 ▸ hmono _ _ ha⟩
   · intro b B' hB' m hm
@@ -49,26 +51,28 @@ theorem InvPlace.of_frame {s s' : State} (h : InvPlace s)
   · intro tp e he
     rcases hlog tp e he with he | ⟨b, B, hB, htp, m, hm, hem⟩
     · obtain ⟨C, hC, ha⟩ := h.logTP tp e he
-      obtain ⟨C', hC', hmono⟩ := hcalls _ _ hC
+      obtain ⟨C', hC', -, hmono⟩ := hcalls _ _ hC
       exact ⟨C', hC', hmono _ _ ha⟩
-    · rw [hem, ← htp]; exact hbt b B hB m hm
+    · rw [hem, ← htp]
+      obtain ⟨C', hC', ha, -⟩ := hbt b B hB m hm
+      exact ⟨C', hC', ha⟩
 
 theorem pframe_calls_id {s : State} :
-    (∀ c C, s.calls c = some C → ∃ C', s.calls c = some C' ∧ ∀ (j : Nat) (tp : TP), C.assign[j]? = some tp → C'.assign[j]? = some tp) ∧
+    (∀ c C, s.calls c = some C → ∃ C', s.calls c = some C' ∧ C'.place = C.place ∧ ∀ (j : Nat) (tp : TP), C.assign[j]? = some tp → C'.assign[j]? = some tp) ∧
     (∀ c C', s.calls c = some C' → (∀ i, C'.place i = none) ∨ ∃ C, s.calls c = some C ∧ C'.place = C.place) :=
-  ⟨fun _ C h => ⟨C, h, fun _ _ h => h⟩, fun _ C' h => Or.inr ⟨C', h, rfl⟩⟩
+  ⟨fun _ C h => ⟨C, h, rfl, fun _ _ h => h⟩, fun _ C' h => Or.inr ⟨C', h, rfl⟩⟩
 
 theorem pframe_calls_upd {s : State} {cl' : Nat → Option Call} {c : Nat} {C C' : Call} (hC : s.calls c = some C)
     (e : cl' = upd s.calls c (some C')) (hpl : C'.place = C.place)
     (hmono : ∀ (j : Nat) (tp : TP), C.assign[j]? = some tp → C'.assign[j]? = some tp) :
-    (∀ x X, s.calls x = some X → ∃ X', cl' x = some X' ∧ ∀ (j : Nat) (tp : TP), X.assign[j]? = some tp → X'.assign[j]? = some tp) ∧
+    (∀ x X, s.calls x = some X → ∃ X', cl' x = some X' ∧ X'.place = X.place ∧ ∀ (j : Nat) (tp : TP), X.assign[j]? = some tp → X'.assign[j]? = some tp) ∧
     (∀ x X', cl' x = some X' → (∀ i, X'.place i = none) ∨ ∃ X, s.calls x = some X ∧ X'.place = X.place) := by
   constructor
   · intro x X hx
     by_cases hxc : x = c
     · subst hxc; rw [hC] at hx; cases hx
-      exact ⟨C', by rw [e]; simp, hmono⟩
-    · exact ⟨X, by rw [e, upd_other _ _ _ _ hxc]; exact hx, fun _ _ h => h⟩
+      exact ⟨C', by rw [e]; simp, hpl, hmono⟩
+    · exact ⟨X, by rw [e, upd_other _ _ _ _ hxc]; exact hx, rfl, fun _ _ h => h⟩
   · intro x X' hx
     rw [e] at hx
     rcases upd_some_elim hx with ⟨rfl, rfl⟩ | ⟨-, h⟩
@@ -105,7 +109,7 @@ theorem getElem?_append_some {α : Type} {l : List α} {x y : α} {j : Nat} (h :
 
 theorem invPlace_add {s s' : State} (hI : InvPlace s) {b c i size : Nat} {P : PW} {B : Batch} {C : Call}
     (hB : s.batches b = some B) (hC : s.calls c = some C)
-    (hBtp : B.tp = P.tp) (hassign : C.assign[i]? = some P.tp)
+    (hBtp : B.tp = P.tp) (hassign : C.assign[i]? = some P.tp) (hplace : C.place i = none)
     (ebat : s'.batches = upd s.batches b (some (B.push { msg := (c, i), size := size, seq := s.seq })))
     (ecalls : s'.calls = upd s.calls c (some { C with place := upd C.place i (some b) }))
     (elog : s'.log = s.log) : InvPlace s' := by
@@ -143,20 +147,34 @@ theorem invPlace_add {s s' : State} (hI : InvPlace s) {b c i size : Nat} {P : PW
       obtain ⟨Y', hY', htp, hsub⟩ := hbt y Y hY
       exact ⟨Y', hY', ⟨m, hsub m hm, hmm⟩, htp ▸ ha⟩
   · intro y Y' hy m hm
+    -- the call record of an old message after the step: same assignment, and its place is unchanged
+    have hcl2 : ∀ (m' : BMsg) (X : Call) (y0 : Nat), s.calls m'.msg.1 = some X → X.place m'.msg.2 = some y0 →
+        ∃ X', s'.calls m'.msg.1 = some X' ∧ X'.assign = X.assign ∧ X'.place m'.msg.2 = some y0 := by
+      intro m' X y0 hX hp
+      by_cases hxc : m'.msg.1 = c
+      · rw [hxc, hC] at hX; cases hX
+        refine ⟨{ C with place := upd C.place i (some b) }, by rw [hxc, ecalls]; simp, rfl, ?_⟩
+        by_cases hji : m'.msg.2 = i
+        · rw [hji, hplace] at hp; cases hp
+        · show upd C.place i (some b) m'.msg.2 = some y0
+          rw [upd_other _ _ _ _ hji]; exact hp
+      · exact ⟨X, by rw [ecalls, upd_other _ _ _ _ hxc]; exact hX, rfl, hp⟩
     rw [ebat] at hy
     rcases upd_some_elim hy with ⟨rfl, rfl⟩ | ⟨hne, hy⟩
     · simp only [Batch.push] at hm
       rcases List.mem_append.mp hm with hm | hm
-      · obtain ⟨X, hX, ha⟩ := hI.batchTP y B hB m hm
-        obtain ⟨X', hX', e⟩ := hcl _ _ hX
-        exact ⟨X', hX', by rw [e]; exact ha⟩
+      · obtain ⟨X, hX, ha, hp⟩ := hI.batchTP y B hB m hm
+        obtain ⟨X', hX', e, hp'⟩ := hcl2 m X y hX hp
+        exact ⟨X', hX', by rw [e]; exact ha, hp'⟩
       · simp at hm; subst hm
-        refine ⟨{ C with place := upd C.place i (some y) }, by rw [ecalls]; simp, ?_⟩
-        show C.assign[i]? = some B.tp
-        rw [hBtp]; exact hassign
-    · obtain ⟨X, hX, ha⟩ := hI.batchTP y Y' hy m hm
-      obtain ⟨X', hX', e⟩ := hcl _ _ hX
-      exact ⟨X', hX', by rw [e]; exact ha⟩
+        refine ⟨{ C with place := upd C.place i (some y) }, by rw [ecalls]; simp, ?_, ?_⟩
+        · show C.assign[i]? = some B.tp
+          rw [hBtp]; exact hassign
+        · show upd C.place i (some y) i = some y
+          simp
+    · obtain ⟨X, hX, ha, hp⟩ := hI.batchTP y Y' hy m hm
+      obtain ⟨X', hX', e, hp'⟩ := hcl2 m X y hX hp
+      exact ⟨X', hX', by rw [e]; exact ha, hp'⟩
   · intro tp e he
     rw [elog] at he
     obtain ⟨X, hX, ha⟩ := hI.logTP tp e he
@@ -183,9 +201,9 @@ theorem invPlace_step (cfg : Cfg) (s : State) (e : Event) (s' : State) (hI : Inv
     repeat' split at hs
     all_goals (first | (cases hs; done) | skip)
     rename_i _ P hP _ B hB _ C hC hg
-    obtain ⟨-, -, -, -, hBtp, -, -, -, -, hassign, -⟩ := hg
+    obtain ⟨-, -, -, -, hBtp, -, -, -, -, hassign, hplace, -⟩ := hg
     cases hs
-    exact invPlace_add hI hB hC hBtp hassign rfl rfl rfl
+    exact invPlace_add hI hB hC hBtp hassign hplace rfl rfl rfl
   | begin_ c msgs =>
     simp only [step] at hs
     repeat' split at hs
@@ -196,7 +214,7 @@ theorem invPlace_step (cfg : Cfg) (s : State) (e : Event) (s' : State) (hI : Inv
     refine hI.of_frame ?_ ?_ pframe_bat_id.1 pframe_bat_id.2 hlogid
     · intro x X hx
       have hne : x ≠ c := by intro e; rw [e, hnone] at hx; cases hx
-      exact ⟨X, by show upd s.calls c _ x = _; rw [upd_other _ _ _ _ hne]; exact hx, fun _ _ h => h⟩
+      exact ⟨X, by show upd s.calls c _ x = _; rw [upd_other _ _ _ _ hne]; exact hx, rfl, fun _ _ h => h⟩
     · intro x X' hx
       rcases upd_some_elim hx with ⟨rfl, rfl⟩ | ⟨-, h⟩
       · exact Or.inl (fun _ => rfl)
